@@ -199,8 +199,9 @@ class PropertyRun:
         """lemmas: list of (name, fn() -> (assumptions, goal)) ; pure solver obligations over contract clauses."""
         obls = []
         for name, fn in lemmas:
-            assumptions, goal = fn()
-            obls.append(Obl(f"lemma/{name}", list(assumptions), goal, "lemma", "lemma", 0, ""))
+            got = fn()
+            assumptions, goal = got[0], got[1]
+            obls.append(Obl(f"lemma/{name}", list(assumptions), goal, "lemma", "lemma", 0, "", extra=got[2] if len(got) > 2 else None))
         from .engine import PI_AXIOMS
 
         res = solve.discharge(obls, PI_AXIOMS, timeout_ms=self.timeout_ms)
